@@ -1675,6 +1675,10 @@ func TestVerifC12(t *testing.T) {
 			r.ecmaCase(rng)
 			continue
 		}
+		if c%25 == 18 {
+			r.pickCountNestedCase(rng)
+			continue
+		}
 		if c%20 == 9 {
 			r.envJSONCase(rng)
 		}
@@ -1991,6 +1995,50 @@ func (r *zRun) pickWindowCase(rng *rand.Rand) {
 		w := []int{}
 		for _, i := range rng.Perm(k) {
 			if rng.Intn(5) < 3 {
+				w = append(w, i)
+			}
+		}
+		r.opMatch(w)
+		r.walletFlow(rng, w, k)
+	}
+}
+
+// pickCountNestedCase: pick/count over `from_nested` whose members are `all from G_j` requirements over groups of ONE OR TWO
+// descriptors (a taken member contributes 1 or 2 credentials, so "credentials collected" and "members taken" differ), one
+// distinct credential per descriptor; wallets: everything (in random order), and random subsets
+func (r *zRun) pickCountNestedCase(rng *rand.Rand) {
+	ng := 3 + rng.Intn(2)
+	srcs := []zCredSrc{}
+	ds := []interface{}{}
+	nestedSRs := []interface{}{}
+	k := 0
+	for j := 0; j < ng; j++ {
+		g := "G" + strconv.Itoa(j)
+		nestedSRs = append(nestedSRs, map[string]interface{}{"rule": "all", "from": g})
+		for m := 1 + rng.Intn(2); m > 0; m-- {
+			id := "did:example:issuer#n" + strconv.Itoa(k)
+			doc := map[string]interface{}{"@context": []interface{}{"https://www.w3.org/2018/credentials/v1"}, "id": id,
+				"type": []interface{}{"VerifiableCredential", zPick(rng, zTypes)}, "issuer": "did:example:issuer0", "issuanceDate": "2020-01-01T00:00:00Z",
+				"credentialSubject": map[string]interface{}{"id": "did:example:holder0", "role": zPick(rng, zRoles)}}
+			b, _ := json.Marshal(doc)
+			srcs = append(srcs, zCredSrc{Src: string(b)})
+			ds = append(ds, map[string]interface{}{"id": "d" + strconv.Itoa(k+1), "group": []interface{}{g},
+				"constraints": map[string]interface{}{"fields": []interface{}{map[string]interface{}{"path": []interface{}{"$.id"}, "id": "f" + strconv.Itoa(k+1),
+					"filter": map[string]interface{}{"type": "string", "const": id}}}}})
+			k++
+		}
+	}
+	sr := map[string]interface{}{"rule": "pick", "count": 1 + rng.Intn(ng-1), "from_nested": nestedSRs}
+	def := map[string]interface{}{"id": "pdn", "input_descriptors": ds, "submission_requirements": []interface{}{sr}}
+	b, _ := json.Marshal(def)
+	r.stats["pick-count-nested-case"]++
+	if !r.opCase(string(b), srcs) {
+		return
+	}
+	for rep := 0; rep < 3; rep++ {
+		w := []int{}
+		for _, i := range rng.Perm(k) {
+			if rep == 0 || rng.Intn(5) < 4 {
 				w = append(w, i)
 			}
 		}
